@@ -156,7 +156,7 @@ def tlc_mc(d, module, cfg, workers=16, timeout=1800):
             "complete": st["queue"] == 0 and not viol, "wall_s": round(time.time() - t, 1), "out": out if viol else ""}
 
 
-def tlc_lead(d, module, cfg, workers=8, timeout=900):
+def tlc_lead(d, module, cfg, workers=1, timeout=1800):
     """run a configuration whose invariant is EXPECTED to be violated by the faithful model when the
     code has a defect; returns (invariant name, behaviour = value of `hist` in the last state) or None"""
     ce = os.path.join(d, f"ce-{cfg}.json")
